@@ -442,6 +442,10 @@ pub fn run_runtime_batch(ctx: &Ctx, report: &mut Report, property: &str, mel_bia
 			report.broken.push(format!("generator produced an invalid definition ({r}): {}", d.source(false)));
 			return;
 		}
+		if let Err(r) = well_formed(d) {
+			report.broken.push(format!("generator produced an ill-formed definition ({r}): {}", d.source(false)));
+			return;
+		}
 	}
 	let dir = gen_root(property).join(format!("batch{salt}"));
 	let crate_name = format!("psc-gen-{}-{salt}", property.to_lowercase());
